@@ -200,10 +200,12 @@ Definition applicable_threshold (b : borrow_in) : outcome Z :=
   | SecondTransit => oz (dmul_c (base_threshold b) (b_thr_two b))
   end.
 
-(* sdk.Dec.GT(currentCollateralizationRatio, threshold) *)
+(* sdk.Dec.GT(currentCollateralizationRatio, threshold); the ratio is computed first (its errors
+   return first) *)
+Definition ratio_above_of (cr th : outcome Z) : outcome bool :=
+  obind cr (fun c => obind th (fun t => Ok (c >? t))).
 Definition ratio_above (b : borrow_in) : outcome bool :=
-  obind (lend_cr b) (fun cr =>
-  obind (applicable_threshold b) (fun th => Ok (cr >? th))).
+  ratio_above_of (lend_cr b) (applicable_threshold b).
 
 (* UpdateLockedBorrows can complete (liquidate.go:360-404): SendCoinsFromModuleToModule(pool ->
    auctionsV2, AmountIn of the collateral denom), BurnCoins(pool, AmountIn of the cToken),
@@ -212,20 +214,31 @@ Definition ratio_above (b : borrow_in) : outcome bool :=
 Definition borrow_start_ok (b : borrow_in) : bool :=
   (b_amt_in b <=? b_pool_bal b) && (b_amt_in b <=? b_cpool_bal b) && (b_dutch b || b_english b).
 
-Definition seize_rule_borrow (g : gen) (b : borrow_in) : verdict :=
+Definition seize_rule_borrow_of (g : gen) (b : borrow_in) (above_ : outcome bool) : verdict :=
   if negb (b_found b) then (match g with GB1 => VKeep | _ => VErr end)
   else if b_liquidated b then VKeep
   else if negb (b_lend_found b) then VErr
   else if b_kill b then VErr
   else if negb (b_interest_ok b) then VErr
   else verdict_of_outcome
-    (obind (ratio_above b) (fun above =>
+    (obind above_ (fun above =>
      if above then
        (match g with
         | GB1 => if b_v1_start b then Ok true else Err 5
         | _ => if negb (b_white b) then Err 6 else if borrow_start_ok b then Ok true else Err 5
         end)
      else Ok false)).
+
+Definition seize_rule_borrow (g : gen) (b : borrow_in) : verdict :=
+  seize_rule_borrow_of g b (ratio_above b).
+
+(* everything the runner needs about one visit, the ratio computed once *)
+Record beval := mkBeval { e_v : verdict; e_cr : outcome Z; e_th : outcome Z; e_unsafe : bool }.
+Definition borrow_eval (g : gen) (b : borrow_in) : beval :=
+  let cr := lend_cr b in
+  let th := applicable_threshold b in
+  let above := ratio_above_of cr th in
+  mkBeval (seize_rule_borrow_of g b above) cr th (match above with Ok x => x | _ => false end).
 
 (* ------------------------------------------------------------------------------------ *)
 (* 3. the sweep over a position list                                                      *)
@@ -289,6 +302,11 @@ Record sweep_res := mkRes {
 Definition two63 : Z := 9223372036854775808.
 Definition int_of_u64 (c : Z) : Z := if c >=? two63 then c - two64 else c.
 Definition u64 (x : Z) : Z := x mod two64.
+
+(* the parameter validation of LiquidationBatchSize (x/liquidationsV2/types/params.go
+   validateLiquidationBatchSize, since fix C09-F4): positive and representable as an int - the sweeps
+   convert the stored uint64 with int(...) *)
+Definition valid_batch (b : Z) : bool := (1 <=? b) && (b <? two63).
 
 (* One sweep over the list, sliced by [len] (an int).  [cap] is the capacity of the slice the
    keeper returned.  Result: seized ids, list afterwards, offset to store (= end of the window,
@@ -499,6 +517,18 @@ Definition lworld_eqb (a b : lworld) : bool :=
    recorded collateral, and nothing else moved *)
 Definition holds_C09_handover_borrow (before after : lworld) (zs : list bseize) : bool :=
   lworld_eqb (fold_left seize_borrow_world zs before) after.
+
+(* ---- 4c. MsgLiquidateExternalKeeper (liquidate.go:679-718): anyone hands collateral of his own to the
+   auction module against the app's reserve funds for the debt asset; a Dutch auction is opened ---- *)
+Definition ext_rule (params reserve dutch : bool) (price_c price_d : option Z) : bool :=
+  params && reserve && dutch && is_some price_c && is_some price_d.
+
+Definition ext_world (w : lworld) (denom amt : Z) : lworld :=
+  mkLW (kadd (w_bal w) (auction_acc, denom) amt) (w_supply w) (w_tlend w) (w_tborrow w) (w_tstable w)
+       (w_lend w) (w_liq w) (w_locked w ++ [(0, amt)]) (w_auction w ++ [(0, amt)]).
+
+Definition holds_C09_handover_external (before after : lworld) (denom amt : Z) : bool :=
+  lworld_eqb (ext_world before denom amt) after.
 
 (* the id-level effect of the sweep and the world-level effect name the same borrows *)
 Definition seized_ids (zs : list bseize) : list Z := map z_id zs.
